@@ -468,14 +468,44 @@ func (e *c14env) broadcasts() {
 				// the literal is invoked (go func(clients){...}(X)) with X = g.GetClients(nil)
 				okAll := false
 				par := p.Parent(fs.File, lit.Lit)
-				if callLit, ok := par.(*ast.CallExpr); ok && len(callLit.Args) == 1 {
+				// a parameter of the literal stands for the argument it is invoked with
+				var lparams []types.Object
+				for _, fld := range lit.Lit.Type.Params.List {
+					for _, nm := range fld.Names {
+						lparams = append(lparams, info.Defs[nm])
+					}
+				}
+				litArg := func(x ast.Expr) ast.Expr {
+					callLit, isCall := par.(*ast.CallExpr)
+					id, isId := unparen(x).(*ast.Ident)
+					if !isCall || !isId || len(callLit.Args) != len(lparams) {
+						return x
+					}
+					for k, po := range lparams {
+						if po != nil && info.Uses[id] == po {
+							return callLit.Args[k]
+						}
+					}
+					return x
+				}
+				if callLit, ok := par.(*ast.CallExpr); ok && len(callLit.Args) == len(lparams) {
+					// the members ranged over by the loop around the call
+					var over ast.Expr
+					for cur := ast.Node(call); cur != nil && cur != ast.Node(lit.Lit); cur = p.Parent(fs.File, cur) {
+						if rs, isR := cur.(*ast.RangeStmt); isR {
+							over = litArg(rs.X)
+							break
+						}
+					}
 					pff := e.eng.Analyze(lit.Parent)
 					st, _ := pff.At(callLit)
-					if st == nil {
+					if st == nil && len(callLit.Args) > 0 {
 						st, _ = pff.At(callLit.Args[0])
 					}
-					if gc := e.provCall(pff, st, callLit.Args[0]); gc != nil && fnIs(calleeOf(&CallSite{Call: gc, In: lit.Parent}), "group", "Group", "GetClients") && len(gc.Args) == 1 && isNilIdent(info, gc.Args[0]) {
-						okAll = true
+					if over != nil {
+						if gc := e.provCall(pff, st, over); gc != nil && fnIs(calleeOf(&CallSite{Call: gc, In: lit.Parent}), "group", "Group", "GetClients") && len(gc.Args) == 1 && isNilIdent(info, gc.Args[0]) {
+							okAll = true
+						}
 					}
 				}
 				if !okAll {
@@ -485,10 +515,10 @@ func (e *c14env) broadcasts() {
 				pff := e.eng.Analyze(lit.Parent)
 				stLit, _ := pff.At(par)
 				for i, meth := range map[int]string{2: "Id", 3: "Username"} {
-					argCall := e.provCall(pff, stLit, call.Args[i])
+					argCall := e.provCall(pff, stLit, litArg(call.Args[i]))
 					if argCall == nil || !(isMethodOn(info, argCall, meth, own)) {
 						// direct field read c.id / c.username is fine too
-						if t := pff.term(call.Args[i]); t != nil && stLit != nil {
+						if t := pff.term(litArg(call.Args[i])); t != nil && stLit != nil {
 							okField := false
 							for v := range stLit.variants(t) {
 								if strings.HasSuffix(v, "."+strings.ToLower(meth)) || strings.HasSuffix(v, ".username") && meth == "Username" {
